@@ -885,7 +885,7 @@ def run(ctx: Ctx):
     cases, lines, impl = history_stream(ctx, ctx.n(150, 1200))
     compare_lines(ctx, "history", cases, lines, impl)
     portable_stream(ctx, ctx.n(80, 600))
-    other_models_stream(ctx, ctx.n(6, 40))
+    other_models_stream(ctx, ctx.n(40, 600))
 
 
 def search(ctx: Ctx, seeds):
@@ -895,7 +895,7 @@ def search(ctx: Ctx, seeds):
             run_case(ctx, {"spec": s["spec"], "ops": list(s["ops"])})
     history_stream(ctx, 600, tag="search")
     portable_stream(ctx, 300)
-    other_models_stream(ctx, 20)
+    other_models_stream(ctx, 300)
 
 
 def replay(ctx: Ctx, payload, from_corpus=None):
